@@ -17,6 +17,48 @@ func RunDriver(path string, args []string, lines []string) ([]string, error) {
 	if len(lines) == 0 {
 		return nil, nil
 	}
+	// chunked, so that a line on which the model runs out of memory or time costs one
+	// `?driver-crash` answer (counted as unmodelled), not the whole stream
+	const chunk = 2000
+	if len(lines) > chunk {
+		var out []string
+		for i := 0; i < len(lines); i += chunk {
+			j := min(i+chunk, len(lines))
+			res, err := runDriverBisect(path, args, lines[i:j])
+			if err != nil {
+				return out, err
+			}
+			out = append(out, res...)
+		}
+		return out, nil
+	}
+	return runDriverBisect(path, args, lines)
+}
+
+func runDriverBisect(path string, args []string, lines []string) ([]string, error) {
+	res, err := runDriverOnce(path, args, lines)
+	if err == nil {
+		return res, nil
+	}
+	if len(lines) == 1 {
+		return []string{"?driver-crash"}, nil
+	}
+	if strings.Contains(err.Error(), "no such file") || strings.Contains(err.Error(), "unknown stream") {
+		return nil, err
+	}
+	mid := len(lines) / 2
+	a, err := runDriverBisect(path, args, lines[:mid])
+	if err != nil {
+		return nil, err
+	}
+	b, err := runDriverBisect(path, args, lines[mid:])
+	if err != nil {
+		return nil, err
+	}
+	return append(a, b...), nil
+}
+
+func runDriverOnce(path string, args []string, lines []string) ([]string, error) {
 	var in bytes.Buffer
 	for _, l := range lines {
 		if strings.ContainsAny(l, "\n\r") {
@@ -28,7 +70,9 @@ func RunDriver(path string, args []string, lines []string) ([]string, error) {
 	if d := os.Getenv("VERIF_DUMP"); d != "" {
 		os.WriteFile(d+"/"+strings.Join(args, "_")+".lines", in.Bytes(), 0o644)
 	}
-	cmd := exec.Command(path, args...)
+	// memory and CPU caps for the model process (a model blow-up must not take the check down)
+	sh := "ulimit -v 6000000; ulimit -t 600; exec \"$0\" \"$@\""
+	cmd := exec.Command("bash", append([]string{"-c", sh, path}, args...)...)
 	cmd.Stdin = &in
 	var out, errb bytes.Buffer
 	cmd.Stdout = &out
